@@ -168,6 +168,54 @@ def _normalise_calls(d):
     return d
 
 
+def _normalise_spawn(d):
+    """(6) `tokio::runtime::Handle::current().spawn(fut)` is `tokio::spawn(fut)`: a spawn through the handle of the runtime
+    that is current *at the call*. Presented as the ambient spawn function the rules know. (A handle obtained anywhere else —
+    stored, cached, passed in — is not rewritten and is reported by R18.5.)"""
+    CUR, SPAWN = "tokio::runtime::handle::{impl#0}::current", "tokio::runtime::handle::{impl#0}::spawn"
+    for f in d.get("fns", []):
+        for stage in ("pre", "post"):
+            body = f.get(stage)
+            if not body:
+                continue
+            blocks = body["blocks"]
+            cur_dests = {tuple(b_["t"]["dest"]) for b_ in blocks if b_["t"].get("k") == "call" and b_["t"].get("callee") == CUR and len(b_["t"].get("dest", [])) == 1}
+            if not cur_dests:
+                continue
+
+            def defs_of(local):
+                out = []
+                for b_ in blocks:
+                    for st in b_["s"]:
+                        if st.get("k") == "assign" and st.get("p") == [local]:
+                            out.append(st)
+                    if b_["t"].get("k") == "call" and b_["t"].get("dest") == [local]:
+                        out.append(b_["t"])
+                return out
+            for b_ in blocks:
+                t = b_["t"]
+                if t.get("k") != "call" or t.get("callee") != SPAWN or len(t.get("args", [])) != 2:
+                    continue
+                recv = t["args"][0]
+                if recv.get("k") not in ("move", "copy") or len(recv["p"]) != 1:
+                    continue
+                ds = defs_of(recv["p"][0])
+                ok = False
+                if len(ds) == 1 and ds[0].get("k") == "assign" and ds[0]["r"].get("k") == "ref" and len(ds[0]["r"].get("p", [])) == 1:
+                    ds2 = defs_of(ds[0]["r"]["p"][0])
+                    ok = len(ds2) == 1 and ds2[0].get("k") == "call" and ds2[0].get("callee") == CUR
+                elif len(ds) == 1 and ds[0].get("k") == "call" and ds[0].get("callee") == CUR:
+                    ok = True
+                if not ok:
+                    continue
+                t["callee"] = "tokio::task::spawn::spawn"
+                t["args"] = [t["args"][1]]
+                if len(t.get("argtys") or []) == 2:
+                    t["argtys"] = [t["argtys"][1]]
+                t.pop("self_ty", None)
+    return d
+
+
 PAYLOAD_ADT = "environment::payload::Payload"
 
 
@@ -289,7 +337,7 @@ def load(cfg, repo="/repo"):
     if key not in _cache:
         path = extract(cfg, repo)
         with open(path) as f:
-            _cache[key] = Facts(_normalise_payload(_normalise_calls(json.loads(_normalise(f.read())))), cfg, path)
+            _cache[key] = Facts(_normalise_spawn(_normalise_payload(_normalise_calls(json.loads(_normalise(f.read()))))), cfg, path)
     return _cache[key]
 
 
